@@ -5,7 +5,7 @@
 
 using namespace QXmpp::Private;
 extern "C" {
-unsigned vp_c05_noff(); unsigned vp_c05_ndis(); unsigned vp_c05_fastbits();          // list lengths of the instance (constants on the C side)
+unsigned vp_c05_noff(); unsigned vp_c05_ndis(); unsigned vp_c05_fastbits(); unsigned vp_c05_row_lo(); unsigned vp_c05_row_hi();          // list lengths of the instance (constants on the C side)
 void *vp_c05_slot(unsigned k); void vp_c05_fill(unsigned k, unsigned row);   // name slots owned by c05_str.c (characters: table_c.inc)
 }
 
@@ -263,13 +263,9 @@ static void checkChoice(const Sym &s, const std::optional<SaslMechanism> &res)
 }
 
 // ---- lemma: the REAL parser on every table row (symbolic row index); group `parse` (no cut) -------------------------
-#ifndef VP_ROW_LO
-#define VP_ROW_LO 0
-#define VP_ROW_HI 1000
-#endif
 extern "C" void h_parse_table()
 {
-    unsigned i = vp_u32(); vp_assume(i >= VP_ROW_LO && i < VP_ROW_HI && i < N_NAMES);
+    unsigned i = vp_u32(); vp_assume(i >= vp_c05_row_lo() && i < vp_c05_row_hi() && i < N_NAMES);   // row range: constants of the instance
     QString name = nameOf(0, i);
     auto m = SaslMechanism::fromString(name);
     std::optional<SaslMechanism> ref; vp_c05_make_mech(i, &ref);
